@@ -176,7 +176,7 @@ Definition run_expire_all_body (f : gfunc) (start cnt : Z) :=
   match first_range 10 (gf_body f) with
   | Some (_, _, body) =>
       exec_list ea_prims no_fcmp no_loop (fun _ _ => None) (fun _ => None) 40 body
-                (mkSt [("startTS", VZ start); ("cnt", VZ cnt)] [] []) ea_obs
+                (mkSt [("startTS", VZ start); ("cnt", VZ cnt)] [] [] []) ea_obs
   | None => None
   end.
 
@@ -233,7 +233,7 @@ Definition run_expire_all_sync (start cnt : Z) :=
       exec_list ea_prims no_fcmp no_loop
                 (fun vs s => match vs with [VB continue] => Some (eff s, lookup "cnt" (env s), continue) | _ => None end)
                 (fun _ => None) 40 body
-                (mkSt [("startTS", VZ start); ("cnt", VZ cnt); ("value", VPtr true "entry")] [] []) (fun _ => None)
+                (mkSt [("startTS", VZ start); ("cnt", VZ cnt); ("value", VPtr true "entry")] [] [] []) (fun _ => None)
   | None => None
   end.
 
